@@ -3,6 +3,7 @@
 From Coq Require Import List Bool Arith ZArith NArith Permutation.
 From XD Require Import lib.ListAux lib.Toposort model.Manager model.ManagerData
   proofs.ManagerIdx proofs.ManagerInv proofs.ManagerHist proofs.ManagerTrace proofs.ManagerDataInv proofs.ManagerExtra.
+From XD Require Import model.TasksSem gen.GenTasks proofs.TasksSrc.
 Import ListNotations.
 Local Open Scope nat_scope.
 
@@ -96,6 +97,27 @@ Proof.
   vm_compute. repeat split; repeat constructor; cbn; intuition discriminate.
 Qed.
 
+(* ---- tie to the source: gen/GenTasks.v is regenerated from xdeps/tasks.py and xdeps/refs.py on every
+   run (tools/py2v/gen_tasks.py); the translated register / unregister / RefCount methods ARE the
+   functions the theorems above speak about, for every manager and every task *)
+Theorem C03_register_is_source : forall (K A : Type) (eqb : K -> K -> bool) (t : @task K A) (m : @mgr K A),
+  src_register eqb t m = register eqb t m.
+Proof. intros K A eqb. exact (src_register_eq eqb). Qed.
+
+Theorem C03_register_is_source_paths : forall (t : dtask) (m : dmgr),
+  src_register path_eqb t m = register path_eqb t m.
+Proof. exact (src_register_eq path_eqb). Qed.
+
+Theorem C03_unregister_is_source_paths : forall (tid : path) (m : dmgr),
+  src_unregister path_eqb tid m = unregister path_eqb tid m.
+Proof. exact (src_unregister_eq path_eqb path_eqb_spec). Qed.
+
+Theorem C03_refcount_is_source : forall (k : path) (ks : list path) (rc : @refcount path),
+  src_rc_append path_eqb k rc = Ok (rc_append path_eqb k rc) /\
+  src_rc_extend path_eqb ks rc = Ok (rc_extend path_eqb ks rc) /\
+  src_rc_remove path_eqb k rc = match rc_remove path_eqb k rc with Some r => Ok r | None => Err EKey end.
+Proof. intros k ks rc. split; [apply src_rc_append_eq|split; [apply src_rc_extend_eq|apply src_rc_remove_eq]]. Qed.
+
 Print Assumptions C03_inv_register.
 Print Assumptions C03_inv_unregister.
 Print Assumptions C03_history_independent.
@@ -106,3 +128,7 @@ Print Assumptions C03_find_deps.
 Print Assumptions C03_reachable.
 Print Assumptions C03_empty.
 Print Assumptions C03_nonvacuous.
+Print Assumptions C03_register_is_source.
+Print Assumptions C03_register_is_source_paths.
+Print Assumptions C03_unregister_is_source_paths.
+Print Assumptions C03_refcount_is_source.
